@@ -217,6 +217,7 @@ TB_DISP = ['compress/gzip and compress/zlib: the harness decodes every body with
 PROPS.update({
     'C06': dict(
         domains=[dict(name='disp', quick=6000, thorough=150000)],
+        race_domains=[dict(name='disp', quick=480, thorough=12000, args=['-force-conc'])],
         verdicts=['c06_*'],
         project={'disp': proj_disp_c06},
         prop_files=['props/C06.v'],
@@ -253,9 +254,10 @@ PROPS.update({
                     'CompressorProvider compared with the model; histories vs fresh containers.',
     ),
     'C19': dict(
-        domains=[dict(name='disp', quick=6000, thorough=150000)],
+        domains=[dict(name='disp', quick=6000, thorough=150000), dict(name='cors', quick=12000, thorough=200000)],
+        race_domains=[dict(name='disp', quick=480, thorough=12000, args=['-force-conc'])],
         verdicts=['c19_*'],
-        project={'disp': proj_disp_all},
+        project={'disp': proj_disp_all, 'cors': proj_cors},
         prop_files=['props/C19.v'],
         trivial_classes=('empty',),
         rule=RULE_DISP, trusted_base=TB_DISP,
